@@ -224,7 +224,6 @@ Variable st : rstate.
 Variable jl : list (N * N).
 Variable rest' : image.
 
-Hypothesis Hrw : c_ro c = false.
 Hypothesis Hkmax : klen <= MAX_KEY_SIZE.
 Hypothesis Hin : sector + need <= total.
 
@@ -265,9 +264,12 @@ Definition after_checks : res step_result :=
                   (rs_retired st4) extent_end (rs_ambiguous st4)) jl)
   end.
 
+(* read-write, or read-only with nothing journaled *)
 Lemma scan_step_on_encoded :
+  c_ro c = false \/ jl = [] ->
   scan_step c version total sector (chunk_blocks (encode_extent version sector r) (N.to_nat need) ++ rest') st jl = after_checks.
 Proof.
+  intros Hmode.
   destruct encode_shape as (tok & pad & Lt & ES & Tk & Tnz & EL).
   destruct need_pos as (NP & _ & _).
   pose proof klen_small as KS.
@@ -299,19 +301,23 @@ Proof.
   { destruct (N.ltb_spec MAX_KEY_SIZE klen); [lia|]. destruct (N.eqb_spec vlen 0); [lia|]. destruct (N.ltb_spec MAX_VALUE_SIZE vlen); [lia|]. reflexivity. }
   assert (B2 : ((need =? 0) || (total <? sector + need)) = false).
   { destruct (N.eqb_spec need 0); [lia|]. destruct (N.ltb_spec total (sector + need)); [lia|]. reflexivity. }
-  assert (OV : match jl with (s, _) :: _ => false && (s <? sector + need) | [] => false end = false).
-  { destruct jl as [|[s x] t]; reflexivity. }
+  assert (OV : match jl with (s, _) :: _ => c_ro c && (s <? sector + need) | [] => false end = false).
+  { destruct Hmode as [M|M]; [rewrite M; destruct jl as [|[s x] t]; reflexivity|rewrite M; reflexivity]. }
   assert (TOK : (if has_token version
                  then le_num tok =? record_token sector ((hb ++ rest1) ++ concat (firstn (N.to_nat (need - 1)) (chunk_blocks (skipn BLOCK E) k' ++ rest')))
                  else true) = true).
   { destruct (has_token version); [|reflexivity]. rewrite TL. rewrite <- HD. rewrite WH. rewrite Tk. apply N.eqb_refl. }
-  unfold scan_step. rewrite Hrw. rewrite HD.
+  unfold scan_step.
+  assert (SK : (if c_ro c then ro_skip jl sector else (None, jl)) = (None, jl)).
+  { destruct Hmode as [M|M]; [rewrite M; reflexivity|]. rewrite M. destruct (c_ro c); reflexivity. }
+  rewrite SK. rewrite HD.
   rewrite F1, F2, N.eqb_refl, F3, !F4, SEQ, F5. cbn [negb]. fold klen. rewrite B1. fold need. rewrite B2, OV.
   rewrite TOK. cbn [negb]. reflexivity.
 Qed.
 
 (* a key the index does not hold yet: accepted and indexed *)
 Theorem scan_step_accepts_encoded_record st4 :
+  c_ro c = false \/ jl = [] ->
   idx_find (r_key r) (rs_idx st) = None ->
   (if rs_last_end st <? sector then fs_release st (rs_last_end st) (sector - rs_last_end st) else Ok st) = Ok st4 ->
   scan_step c version total sector (chunk_blocks (encode_extent version sector r) (N.to_nat need) ++ rest') st jl =
@@ -320,25 +326,27 @@ Theorem scan_step_accepts_encoded_record st4 :
               (rs_fs st4) (rs_count st4 + 1) (wrap64 (rs_mem st4 + record_size c klen vlen))
               (wrap64 (rs_disk st4 + need * FEOX_BLOCK_SIZE)) (rs_retired st4) (sector + need) (rs_ambiguous st4)) jl).
 Proof.
-  intros Hnew Hgap. rewrite scan_step_on_encoded. unfold after_checks. rewrite Hnew, Hgap. reflexivity.
+  intros Hmode Hnew Hgap. rewrite (scan_step_on_encoded Hmode). unfold after_checks. rewrite Hnew, Hgap. reflexivity.
 Qed.
 
 (* newest timestamp wins, whichever generation the scan meets first.  An older generation of an
    indexed key leaves the index as it is and is queued for retirement ... *)
 Theorem scan_step_retires_an_older_generation ex :
+  c_ro c = false ->
   idx_find (r_key r) (rs_idx st) = Some ex -> r_ts r < e_ts ex ->
   scan_step c version total sector (chunk_blocks (encode_extent version sector r) (N.to_nat need) ++ rest') st jl =
   Ok (Advance (sector + need)
         (mkrs (rs_idx st) (rs_fs st) (rs_count st) (rs_mem st) (rs_disk st) ((sector, need) :: rs_retired st)
               (rs_last_end st) (rs_ambiguous st)) jl).
 Proof.
-  intros Hex Hlt. rewrite scan_step_on_encoded. unfold after_checks. rewrite Hex.
+  intros Hrw Hex Hlt. rewrite (scan_step_on_encoded (or_introl Hrw)). unfold after_checks. rewrite Hex.
   destruct (N.ltb_spec (r_ts r) (e_ts ex)); [|lia]. unfold push_retired. rewrite Hrw. reflexivity.
 Qed.
 
 (* ... a generation at least as new replaces the indexed one: its extent is released and queued for
    retirement, the index entry of the key is the new generation, the number of keys is unchanged *)
 Theorem scan_step_replaces_by_a_newer_generation ex st1 st4 :
+  c_ro c = false ->
   idx_find (r_key r) (rs_idx st) = Some ex -> e_ts ex <= r_ts r ->
   let exn := extent_blocks version (N.of_nat (length (e_key ex))) (e_vlen ex) in
   fs_release st (e_sector ex) exn = Ok st1 ->
@@ -352,7 +360,7 @@ Theorem scan_step_replaces_by_a_newer_generation ex st1 st4 :
     idx_find (r_key r) (rs_idx st') = Some (mkentry (r_key r) (r_ts r) (if has_expiry version then r_exp r else 0) vlen sector) /\
     rs_count st' = rs_count st4 /\ rs_last_end st' = sector + need.
 Proof.
-  intros Hex Hge exn H1 st3 H4. rewrite scan_step_on_encoded. unfold after_checks. rewrite Hex.
+  intros Hrw Hex Hge exn H1 st3 H4. rewrite (scan_step_on_encoded (or_introl Hrw)). unfold after_checks. rewrite Hex.
   destruct (N.ltb_spec (r_ts r) (e_ts ex)); [lia|]. fold exn. rewrite H1. cbn [bind].
   unfold push_retired. rewrite Hrw. cbn [rs_idx rs_fs rs_count rs_mem rs_disk rs_retired rs_last_end rs_ambiguous]. fold st3. change (rs_last_end st3) with (rs_last_end st1) in H4. rewrite H4. cbn [bind].
   eexists. split; [reflexivity|]. cbn [rs_idx rs_count rs_last_end]. split; [|split; reflexivity].
@@ -361,6 +369,7 @@ Proof.
 Qed.
 
 Theorem scan_step_replaces_explicit ex st1 st4 :
+  c_ro c = false ->
   idx_find (r_key r) (rs_idx st) = Some ex -> e_ts ex <= r_ts r ->
   let exn := extent_blocks version (N.of_nat (length (e_key ex))) (e_vlen ex) in
   fs_release st (e_sector ex) exn = Ok st1 ->
@@ -375,7 +384,7 @@ Theorem scan_step_replaces_explicit ex st1 st4 :
               (rs_fs st4) (rs_count st4) (wrap64 (rs_mem st4 + record_size c klen vlen))
               (wrap64 (rs_disk st4 + need * FEOX_BLOCK_SIZE)) (rs_retired st4) (sector + need) (rs_ambiguous st4)) jl).
 Proof.
-  intros Hex Hge exn H1 st3 H4. rewrite scan_step_on_encoded. unfold after_checks. rewrite Hex.
+  intros Hrw Hex Hge exn H1 st3 H4. rewrite (scan_step_on_encoded (or_introl Hrw)). unfold after_checks. rewrite Hex.
   destruct (N.ltb_spec (r_ts r) (e_ts ex)); [lia|]. fold exn. rewrite H1. cbn [bind].
   unfold push_retired. rewrite Hrw. cbn [rs_idx rs_fs rs_count rs_mem rs_disk rs_retired rs_last_end rs_ambiguous]. fold st3.
   change (rs_last_end st3) with (rs_last_end st1) in H4. rewrite H4. cbn [bind]. reflexivity.
@@ -451,7 +460,7 @@ Proof.
     { destruct (N.ltb_spec (rs_last_end st) (rs_last_end st)); [lia|reflexivity]. }
     assert (Hin : rs_last_end st + extent_blocks version (N.of_nat (length (r_key r))) (N.of_nat (length (r_value r))) <= total).
     { fold (need_of version r). lia. }
-    rewrite (scan_step_accepts_encoded_record version (rs_last_end st) r K0 Hf V0 Vmax Ts Ex c total st jl _ Hrw Kmax Hin st
+    rewrite (scan_step_accepts_encoded_record version (rs_last_end st) r K0 Hf V0 Vmax Ts Ex c total st jl _ Kmax Hin st (or_introl Hrw)
                (Hfresh r (or_introl eq_refl)) Hgap).
     cbn [bind]. fold (need_of version r).
     destruct (N.leb_spec (rs_last_end st + need_of version r) (rs_last_end st)); [lia|].
@@ -540,10 +549,13 @@ Qed.
 
 (* a zero block (free space) is stepped over, one block at a time *)
 Theorem scan_step_skips_a_zero_block c version total sector st jl rest' :
-  c_ro c = false ->
+  c_ro c = false \/ jl = [] ->
   scan_step c version total sector (zeros BLOCK :: rest') st jl = Ok (Advance (sector + 1) st jl).
 Proof.
-  intros Hrw. unfold scan_step. rewrite Hrw.
+  intros Hmode. unfold scan_step.
+  assert (SK : (if c_ro c then ro_skip jl sector else (None, jl)) = (None, jl)).
+  { destruct Hmode as [M|M]; [rewrite M; reflexivity|]. rewrite M. destruct (c_ro c); reflexivity. }
+  rewrite SK.
   assert (B8 : (8 <= BLOCK)%nat) by (unfold BLOCK, FEOX_BLOCK_SIZE; lia).
   destruct (zero_block_is_neither BLOCK B8) as [Z1 Z2].
   destruct (list_eqb (firstn 8 (zeros BLOCK)) DELETED_TAG) eqn:E; [apply list_eqb_eq in E; contradiction|].
